@@ -156,6 +156,59 @@ theorem C20_exit_incomplete (p : Peer) (w : Wire) (method : String) (args : Opti
     (by rw [hqueue]; simp) rfl rfl rfl hqueue hclosed hall
   simpa using this
 
+/-- **C20 (stdout while the stream is open)**: `--more` against a service that has sent `k`
+    successful `continues` replies and keeps the connection open (a monitor): every one of the `k`
+    replies is already on stdout while the tool waits for the next one — printing does not wait for
+    the end of the stream. -/
+theorem C20_stdout_while_open (p : Peer) (w : Wire) (method : String) (args : Option Json) (rs : List Reply)
+    (hcw : w.canWrite = true) (hempty : w.queue = []) (hopen : w.closed = false)
+    (hans : p w.log (mkRequest method (args.getD .null) false true false) = (rs.map Msg.reply, false))
+    (hall : ∀ r ∈ rs, r.continues = some true ∧ r.error = none) :
+    (runCall p w method args true).hang = true ∧ (runCall p w method args true).stdout = rs.map shown ∧
+    (runCall p w method args true).report = none := by
+  have hsend := send_ok p false true false
+    { conn := {}, call := { MCall.new method (args.getD .null) with continues := true }, wire := w }
+    method (args.getD .null) rfl rfl rfl rfl hcw
+  simp only [Bool.false_eq_true, if_false] at hsend
+  have hqueue : (w.accept p (mkRequest method (args.getD .null) false true false)).queue = rs.map Msg.reply := by
+    simp [Wire.accept, hempty, hopen, hans]
+  have hclosed : (w.accept p (mkRequest method (args.getD .null) false true false)).closed = false := by
+    simp [Wire.accept, hans, hopen]
+  simp only [runCall, Bool.not_true, Bool.false_eq_true, if_false, Client.more]
+  rw [hsend]
+  simp only
+  have key : ∀ (rs : List Reply) (fuel : Nat) (s : CS) (acc : List Json), rs.length + 1 ≤ fuel →
+      s.call.reader = true → s.call.writer = true → s.call.continues = true →
+      s.wire.queue = rs.map Msg.reply → s.wire.closed = false →
+      (∀ r ∈ rs, r.continues = some true ∧ r.error = none) →
+      (iterate fuel s acc).hang = true ∧ (iterate fuel s acc).stdout = acc ++ rs.map shown ∧
+      (iterate fuel s acc).report = none := by
+    intro rs
+    induction rs with
+    | nil =>
+      intro fuel s acc hfuel hr hw hc hq hcl _
+      obtain ⟨fuel', rfl⟩ : ∃ n, fuel = n + 1 := ⟨fuel - 1, by simp at hfuel; omega⟩
+      have hq' : s.wire.queue = [] := by simpa using hq
+      simp [iterate, next, hc, recv, hr, hw, hq', hcl]
+    | cons r rs ih =>
+      intro fuel s acc hfuel hr hw hc hq hcl hall
+      obtain ⟨fuel', rfl⟩ : ∃ n, fuel = n + 1 := ⟨fuel - 1, by simp at hfuel; omega⟩
+      have hq' : s.wire.queue = .reply r :: rs.map Msg.reply := by simpa using hq
+      have hrc := (hall r (by simp)).1
+      have hre : r.error.isSome = false := by simp [(hall r (by simp)).2]
+      simp only [iterate, next, hc, Bool.not_true, Bool.false_eq_true, if_false]
+      rw [recv_reply decValue s r _ hr hw hq']
+      simp only [hrc, if_true, replyRes_ok r hre]
+      have := ih fuel' { s with call := { s.call with continues := true }, wire := { s.wire with queue := rs.map Msg.reply } }
+        (acc ++ [shown r]) (by simp at hfuel; omega) hr hw rfl rfl hcl (fun x hx => hall x (by simp [hx]))
+      simpa using this
+  have := key rs ((w.accept p (mkRequest method (args.getD .null) false true false)).queue.length + 2)
+    { conn := { reader := false, writer := false },
+      call := { ({ MCall.new method (args.getD .null) with continues := true } : MCall).spent with reader := true, writer := true },
+      wire := w.accept p (mkRequest method (args.getD .null) false true false) } []
+    (by rw [hqueue]; simp) rfl rfl rfl hqueue hclosed hall
+  simpa using this
+
 /-- **C20 (error report)**: the first error reply `e` of the stream is what is
     reported: for the four standard errors their short name and the named
     parameter, for any other error its full name and its parameters, unchanged. -/
@@ -218,5 +271,14 @@ example :
   intro r hr
   simp at hr
   rcases hr with rfl | rfl <;> rfl
+
+/-- the split is at the *last* slash also when the address itself ends in a slash or in `/.`
+    (abstract socket names may), and an error of a user interface that merely shares its short
+    name with a standard error is reported with its full name and all its parameters -/
+example :
+    split "unix:@NAME//org.example.Ping" = .direct "unix:@NAME/" "org.example.Ping" ∧
+    split "unix:@NAME/./org.example.Ping" = .direct "unix:@NAME/." "org.example.Ping" ∧
+    reportOf (kindOf { error := some "com.example.InvalidParameter", parameters := some (.obj [("field", .str "size")]) })
+      = .named "com.example.InvalidParameter" (some (.obj [("field", .str "size")])) := by decide
 
 end VV
